@@ -350,11 +350,17 @@ func reportDB(c *Ctx, harness string, dc dbCase, tape *simrt.Tape, seed int64, v
 		}, deadline)
 	}
 	detail := v.detail
-	vs := run(cur.c, simrt.ReplayTape(cur.tape))
-	if d, ok := has(vs); ok {
-		detail = d
-	} else {
-		cur = ct{dc, append([]int{}, tape.Rec...)} // fall back to the original, which must replay
+	if budget > 0 {
+		vs := run(cur.c, simrt.ReplayTape(cur.tape))
+		if d, ok := has(vs); ok {
+			detail = d
+		} else {
+			cur = ct{dc, append([]int{}, tape.Rec...)} // fall back to the original, which must replay
+		}
+	}
+	if len(c.Res.Violations) >= 40 {
+		c.Count("violations-not-listed-beyond-40", 1)
+		return
 	}
 	c.Report(Violation{Sig: v.sig, Detail: detail}, &ReplayFile{RunSeed: seed, Case: mustJSON(cur.c), Tape: cur.tape, Minimised: budget > 0})
 }
